@@ -36,8 +36,11 @@ class LoopSpec:
 
   def __init__(self, key, invariants, modifies=None, variant=None,
                props=(), ordinal=None, ghost=None, extra_modifies=None,
-               variant_lemmas=None):
+               variant_lemmas=None, export_visited=None):
     self.key = key
+    # name under which the ghost set of visited elements is visible to the
+    # invariants of loops nested in this one
+    self.export_visited = export_visited
     # variant: ns -> tuple of integer terms (most significant first), taken
     # at the loop head after the test and again at the back edge.
     # variant_lemmas: (ns at back edge, v0, v1) -> [(text, hypothesis)]:
